@@ -27,28 +27,39 @@ type BlockSpec struct {
 	RLE       int    `json:"rle,omitempty"` // 0 lengths literally, 1 greedy runs, 2 random run choices
 	FullHCLEN bool   `json:"fh,omitempty"`
 	ExtraCL   int    `json:"xc,omitempty"`
-	FreqSort  bool   `json:"fs,omitempty"`  // frequent symbols get the short codes
-	Rep       int    `json:"rep,omitempty"` // emit this block Rep times (seed varied); 0/1 = once
-	Fork      int    `json:"fk,omitempty"`  // >0: code shape "chain to depth Fork, then two chains to the maximum depth" (several deep prefix groups)
+	FreqSort  bool   `json:"fs,omitempty"`   // frequent symbols get the short codes
+	Rep       int    `json:"rep,omitempty"`  // emit this block Rep times (seed varied); 0/1 = once
+	Plan      []Run  `json:"plan,omitempty"` // scripted symbols instead of random ones (N is ignored)
+	Alt258    bool   `json:"a258,omitempty"` // encode length 258 as symbol 284 + extra 31 (legal, non-canonical) instead of symbol 285
+	Fork      int    `json:"fk,omitempty"`   // >0: code shape "chain to depth Fork, then two chains to the maximum depth" (several deep prefix groups)
+}
+
+// Run is N repetitions of one scripted symbol: a literal (Len == 0) or a match (Len, Dist).
+type Run struct {
+	N    int `json:"n"`
+	Lit  int `json:"lit,omitempty"`
+	Len  int `json:"len,omitempty"`
+	Dist int `json:"dist,omitempty"`
 }
 
 // Fault kinds.
 const (
-	FDistTooFar     = "dist-too-far"        // a match whose distance exceeds the bytes produced by Arg (>=1)
-	FUnassignedDist = "unassigned-dist"     // single 1-bit distance code, the other code used
-	FNoDistCode     = "no-dist-code-used"   // block declares no distance code but uses a length symbol
-	FOverLit        = "oversubscribed-lit"  // lit/len lengths over-subscribed
-	FOverDist       = "oversubscribed-dist" //
-	FOverCL         = "oversubscribed-cl"   //
-	FIncompleteLit  = "incomplete-lit"      // lit/len code incomplete, unassigned code used as symbol At
-	FMissingEOB     = "missing-eob"         // symbol 256 has length 0
-	FRepeatFirst    = "repeat-first"        // code-length symbol 16 first
-	FRunPast        = "run-past-count"      // a run that overshoots HLIT+HDIST+258
-	FStoredLen      = "stored-len"          // LEN != ^NLEN
-	FReserved       = "reserved-type"       // block type 3
-	FBadLenSym      = "len-sym-286"         // fixed block using length symbol 286/287 (Arg 0/1)
-	FBadDistSym     = "dist-sym-30"         // fixed block using distance symbol 30/31
-	FHLIT           = "hlit-30"             // HLIT field 30 or 31 (Arg 0/1)
+	FDistTooFar     = "dist-too-far"         // a match whose distance exceeds the bytes produced by Arg (>=1)
+	FUnassignedDist = "unassigned-dist"      // single 1-bit distance code, the other code used
+	FNoDistCode     = "no-dist-code-used"    // block declares no distance code but uses a length symbol
+	FOverLit        = "oversubscribed-lit"   // lit/len lengths over-subscribed
+	FOverDist       = "oversubscribed-dist"  //
+	FOverCL         = "oversubscribed-cl"    //
+	FIncompleteDist = "incomplete-dist-long" // deep distance code made incomplete, its unassigned longest code used
+	FIncompleteLit  = "incomplete-lit"       // lit/len code incomplete, unassigned code used as symbol At
+	FMissingEOB     = "missing-eob"          // symbol 256 has length 0
+	FRepeatFirst    = "repeat-first"         // code-length symbol 16 first
+	FRunPast        = "run-past-count"       // a run that overshoots HLIT+HDIST+258
+	FStoredLen      = "stored-len"           // LEN != ^NLEN
+	FReserved       = "reserved-type"        // block type 3
+	FBadLenSym      = "len-sym-286"          // fixed block using length symbol 286/287 (Arg 0/1)
+	FBadDistSym     = "dist-sym-30"          // fixed block using distance symbol 30/31
+	FHLIT           = "hlit-30"              // HLIT field 30 or 31 (Arg 0/1)
 )
 
 // Fault is injected in block Block (forced to a compatible type if needed) at symbol index At.
@@ -420,6 +431,31 @@ func (s Stream) Build() Built {
 
 // genSyms expands the symbol content of a Huffman block.
 func genSyms(b BlockSpec, produced int, r *rng) []sym {
+	if len(b.Plan) > 0 {
+		var syms []sym
+		for _, run := range b.Plan {
+			for i := 0; i < run.N; i++ {
+				if run.Len > 0 {
+					d := run.Dist
+					if d > produced {
+						d = produced
+					}
+					if d < 1 {
+						// no history yet: fall back to a literal
+						syms = append(syms, sym{lit: run.Lit & 0xff})
+						produced++
+						continue
+					}
+					syms = append(syms, sym{lit: -1, len: run.Len, dist: d})
+					produced += run.Len
+				} else {
+					syms = append(syms, sym{lit: run.Lit & 0xff})
+					produced++
+				}
+			}
+		}
+		return syms
+	}
 	syms := make([]sym, 0, b.N)
 	alpha := b.Alpha
 	if alpha < 1 || alpha > 256 {
@@ -511,7 +547,7 @@ func buildHuffman(w *bitw, out *[]byte, b BlockSpec, fin uint32, f *Fault, res *
 	}
 	// faults that need a particular symbol at position 'at'
 	switch fk {
-	case FDistTooFar, FUnassignedDist, FNoDistCode, FBadDistSym:
+	case FDistTooFar, FUnassignedDist, FNoDistCode, FBadDistSym, FIncompleteDist:
 		l := 3 + at%6
 		syms[at] = sym{lit: -1, len: l, dist: 1}
 		if fk == FUnassignedDist || fk == FNoDistCode {
@@ -556,6 +592,9 @@ func buildHuffman(w *bitw, out *[]byte, b BlockSpec, fin uint32, f *Fault, res *
 				lf[s.lit]++
 			} else {
 				ls, _, _ := lenSym(s.len)
+				if b.Alt258 && s.len == 258 {
+					ls = 284
+				}
 				ds, _, _ := distSym(s.dist)
 				lf[ls]++
 				df[ds]++
@@ -574,6 +613,18 @@ func buildHuffman(w *bitw, out *[]byte, b BlockSpec, fin uint32, f *Fault, res *
 		switch {
 		case fk == FNoDistCode:
 			distLens = make([]uint8, 30)
+		case fk == FIncompleteDist:
+			// a deep complete code over (almost) all 30 symbols, then one of its longest codes removed
+			distLens = assign(30, df, 30, 15, 80, 12, false, r, false)
+			best := -1
+			for i, l := range distLens {
+				if df[i] == 0 && (best < 0 || l > distLens[best]) {
+					best = i
+				}
+			}
+			if best >= 0 {
+				distLens[best] = 0
+			}
 		case fk == FUnassignedDist:
 			distLens = make([]uint8, 30)
 			distLens[0] = 1
@@ -597,7 +648,11 @@ func buildHuffman(w *bitw, out *[]byte, b BlockSpec, fin uint32, f *Fault, res *
 		}
 		switch fk {
 		case FOverLit:
-			bumpShorter(litLens, r)
+			if f.Arg%2 == 1 && !addLongest(litLens) {
+				bumpShorter(litLens, r)
+			} else if f.Arg%2 == 0 {
+				bumpShorter(litLens, r)
+			}
 		case FOverDist:
 			if !bumpShorter(distLens, r) {
 				distLens[0], distLens[1], distLens[2] = 1, 1, 1
@@ -647,6 +702,9 @@ func buildHuffman(w *bitw, out *[]byte, b BlockSpec, fin uint32, f *Fault, res *
 			continue
 		}
 		ls, lx, lnx := lenSym(s.len)
+		if b.Alt258 && s.len == 258 && litLens[284] != 0 {
+			ls, lx, lnx = 284, 31, 5
+		}
 		ds, dx, dnx := distSym(s.dist)
 		if isFault {
 			switch fk {
@@ -664,6 +722,20 @@ func buildHuffman(w *bitw, out *[]byte, b BlockSpec, fin uint32, f *Fault, res *
 				w.code(litCodes[ls], uint(litLens[ls]))
 				w.bits(lx, lnx)
 				w.bits(1, 1) // the unassigned 1-bit code
+				return true
+			case FIncompleteDist:
+				res.FaultBit = w.pos()
+				res.FaultDone = true
+				w.code(litCodes[ls], uint(litLens[ls]))
+				w.bits(lx, lnx)
+				ml := uint(0)
+				for _, l := range distLens {
+					if uint(l) > ml {
+						ml = uint(l)
+					}
+				}
+				w.code((1<<ml)-1, ml) // the all-ones code of the maximum length is unassigned in an incomplete canonical code
+				w.bits(0, 13)
 				return true
 			case FNoDistCode:
 				res.FaultBit = w.pos()
@@ -699,6 +771,27 @@ func buildHuffman(w *bitw, out *[]byte, b BlockSpec, fin uint32, f *Fault, res *
 		return true
 	}
 	w.code(litCodes[256], uint(litLens[256]))
+	return false
+}
+
+// addLongest over-subscribes a code only through its longest length: an unused symbol gets a
+// code of the maximum length already present (complete code + one more longest code).
+func addLongest(lens []uint8) bool {
+	max := uint8(0)
+	for _, l := range lens {
+		if l > max {
+			max = l
+		}
+	}
+	if max == 0 {
+		return false
+	}
+	for i, l := range lens {
+		if l == 0 && i != 256 {
+			lens[i] = max
+			return true
+		}
+	}
 	return false
 }
 
